@@ -843,6 +843,42 @@ func (x *Exec) inlineClosure(fl *ast.FuncLit, call *ast.CallExpr, env *Env) []Te
 	if x.depth >= maxInlineDepth {
 		unsupported("closure recursion")
 	}
+	if x.inlining[fl] {
+		// a closure that calls itself: the inner invocation is abstracted - every variable the body may assign is
+		// havocked and the results are unconstrained. Safety obligations inside the inner invocations are not
+		// generated, so this is admitted only where safety is not claimed.
+		if x.safety {
+			unsupported("recursive closure in a unit with safety obligations")
+		}
+		for _, a := range call.Args {
+			x.eval(a, env)
+		}
+		var mods []types.Object
+		for o := range assignedVars(info, fl.Body, x.cx.closures) {
+			mods = append(mods, o)
+		}
+		sort.Slice(mods, func(i, j int) bool { return mods[i].Pos() < mods[j].Pos() })
+		for _, o := range mods {
+			if cur, ok := env.vars[o]; ok {
+				nv := x.fresh(o.Name(), o.Type())
+				if nv.Sort != cur.Sort {
+					nv = x.W.Fresh(o.Name(), cur.Sort)
+					nv.GoT = cur.GoT
+				}
+				env.vars[o] = nv
+			}
+		}
+		var outv []Term
+		for i := 0; i < sig.Results().Len(); i++ {
+			outv = append(outv, x.fresh("crec", sig.Results().At(i).Type()))
+		}
+		return outv
+	}
+	if x.inlining == nil {
+		x.inlining = map[*ast.FuncLit]bool{}
+	}
+	x.inlining[fl] = true
+	defer delete(x.inlining, fl)
 	x.depth++
 	defer func() { x.depth-- }()
 	for i, a := range call.Args {
